@@ -63,11 +63,16 @@ def run(ctx, module, inv, mode, export_args, chunks, procs=4, timeout=1500):
     ctx.extra["rules_by_kind"] = kinds
     for c in allc[:: max(1, len(allc) // 8)][:8]:
         ctx.sample({"rule": c["rule"], "status": c["status"], "shortcut": "".join(map(chr, c["sc"]))})
+    lost = []
     for c in confirms:
         if not c["confirmed"]:
             if c.get("panic") or c["status"] == "panic":
                 continue
-            raise vf.Inconclusive("TLC witness did not reproduce on the real code: %s" % json.dumps(c))
+            # a defect that makes the corpus itself unstable (a pooled buffer: the same rule gets another shortcut in
+            # the confirmation run) loses some witnesses; the ones that do reproduce are reported, and only if none
+            # does is the run inconclusive
+            lost.append(c)
+            continue
         sig = {"cause": c.get("cause", ""), "kind": c["kind"]}
         if mode == "mask":
             what = "pattern %r (rule %r): %s on %r" % (c["pattern"], c["rule"], c.get("cause"), c["witness"])
@@ -75,6 +80,9 @@ def run(ctx, module, inv, mode, export_args, chunks, procs=4, timeout=1500):
             what = "rule %r shortcut %r: pattern accepts %r but lower-cased URL lacks the shortcut (%s)" % (
                 c["rule"], c["shortcut"], c["witness"], c.get("cause"))
         ctx.report(what, {"check": module, "case": c}, sig)
+    ctx.extra["witnesses_not_reproduced"] = len(lost)
+    if lost and not ctx.violations:
+        raise vf.Inconclusive("TLC witness did not reproduce on the real code: %s" % json.dumps(lost[0]))
     return confirms
 
 
